@@ -31,6 +31,10 @@ pub const HEADER_POOL: [&str; 21] = [
 ];
 
 pub fn gen_secret(t: &mut Tape) -> String {
+    if t.chance(24) {
+        // a secret may itself begin with the derivation prefix
+        return ["AWS4abcdefgh", "AWS4", "AWS4AWS4secret/+=", "aws4lowercase"][t.below(4)].to_string();
+    }
     let len = match t.below(8) {
         0 => 40,
         1 => 0,
@@ -122,7 +126,7 @@ pub fn gen_node(t: &mut Tape, k: &NodeKnobs) -> Node {
                 always.push(h.to_string());
             }
         }
-        for h in ["etag", "x-custom", "content-md5", "x-amz-security-token", "x-cube", "x-custom-2", "x-cub"] {
+        for h in ["etag", "x-custom", "content-md5", "x-amz-security-token", "x-cube", "x-custom-2", "x-cub", "content-length"] {
             if t.chance(3) {
                 cond.push(h.to_string());
             }
@@ -265,11 +269,32 @@ pub fn gen_logical(t: &mut Tape, node: &Node, k: &ReqKnobs) -> Logical {
     } else {
         segs.retain(|s| !s.is_empty() && s != b"." && s != b"..");
     }
+    if k.max_segs >= 2 && t.chance(40) {
+        // a long segment of well-formed UTF-8 (multi-byte characters straddle every offset)
+        let target = [100, 126, 127, 128, 129, 200, 260][t.below(7)];
+        let mut sgm: Vec<u8> = Vec::new();
+        while sgm.len() < target {
+            match t.below(3) {
+                0 => sgm.extend("é".as_bytes()),
+                1 => sgm.extend("€".as_bytes()),
+                _ => sgm.push(b'a' + t.below(26) as u8),
+            }
+        }
+        segs.push(sgm);
+    }
     let trailing = !segs.is_empty() && t.chance(4);
     let url_pairs = gen_pairs(t, k.max_pairs);
     let mut headers: Vec<(String, Vec<u8>)> = Vec::new();
     headers.push(("host".into(), b"example.amazonaws.com".to_vec()));
-    let nh = t.below(k.max_headers + 1);
+    let mut nh = t.below(k.max_headers + 1);
+    if k.max_headers >= 4 && t.chance(50) {
+        // more header lines than a small sort or table handles specially, one name repeated
+        nh = 21 + t.below(24);
+        let rep = HEADER_POOL[t.below(4)].to_string();
+        for i in 0..(3 + t.below(4)) {
+            headers.push((rep.clone(), format!("v{}", (i * 7 + 3) % 10).into_bytes()));
+        }
+    }
     for _ in 0..nh {
         let name = HEADER_POOL[t.below(HEADER_POOL.len())].to_string();
         let v = gen_header_value_for(&name, t);
@@ -294,6 +319,10 @@ pub fn gen_logical(t: &mut Tape, node: &Node, k: &ReqKnobs) -> Logical {
             4 => 6,
             _ => 0,
         }
+    } else if k.forms && t.chance(16) {
+        // (also outside the form world: bodies that a folding node could not decode — a node that
+        // does not fold never looks at them)
+        [4, 5, 6][t.below(3)]
     } else {
         t.below(4)
     };
@@ -390,11 +419,23 @@ pub fn gen_logical(t: &mut Tape, node: &Node, k: &ReqKnobs) -> Logical {
         }
         1 => {
             let n = if k.big_body_one_in > 0 && t.chance(k.big_body_one_in) {
-                60_000 + t.below(50_000)
+                if t.chance(4) {
+                    // an upload of a mebibyte, give or take a byte
+                    (1usize << 20) + [0usize, 1, 2][t.below(3)] - 1
+                } else {
+                    60_000 + t.below(50_000)
+                }
             } else {
                 t.below(48)
             };
-            body = t.bytes(n);
+            body = if n >= 1 << 19 {
+                // (a fixed pattern after a few drawn bytes: a million tape choices would say nothing more)
+                let mut b = t.bytes(16);
+                b.extend((16..n).map(|i| (i as u32).wrapping_mul(2654435761) as u8));
+                b
+            } else {
+                t.bytes(n)
+            };
             if t.chance(2) {
                 let ct: &[u8] = match t.below(3) {
                     0 => b"application/json",
@@ -590,6 +631,9 @@ pub fn sign_message(t: &mut Tape, mut l: Logical, node: &Node, acct: &Account, a
         fold: node.cfg.fold,
     };
     let mut quirks = Quirks::default();
+    if a.signed.len() > 1 && t.chance(8) {
+        quirks.unsorted_signed = true;
+    }
     if carrier == Carrier::Query && node.cfg.fold && folds(&l, true) && !l.body_defect && t.chance(4) {
         // a presigned *form*: the X-Amz-* parameters are posted in the body and folded in by the node
         quirks.auth_pairs_in_body = true;
@@ -628,6 +672,8 @@ pub fn gen_epoch(t: &mut Tape) -> i128 {
         c(2019, 12, 31, 23, 59, 59),
         c(2020, 1, 1, 0, 0, 0),
         c(1970, 1, 1, 0, 5, 0),
+        c(1970, 1, 1, 0, 0, 0),
+        c(2017, 3, 1, 0, 0, 0),
         c(1, 1, 2, 12, 0, 0),
         c(9999, 12, 30, 12, 0, 0),
         c(2024, 4, 30, 23, 50, 0),
